@@ -253,6 +253,13 @@ func c14Program(kind int, seed int) (o c14out) {
 		}
 		o.Bytes = b
 		o.Dump = fmt.Sprintf("Len=%d/%d ", l0, bm.m.Len()) + obs.Deep(bm.m)
+		// the controller's own frames through the parser too (a proxy, a test peer): several kinds have no
+		// decoder and come back as an error, which is a value like any other
+		if pm, perr := of.Parse(append([]byte{}, b...)); perr != nil {
+			o.Dump += " parse-error: " + perr.Error()
+		} else if pm != nil {
+			o.Bytes2, _ = pm.MarshalBinary()
+		}
 	case 1: // conformant switch frame -> Parse -> dump -> re-encode
 		sm := c14Switch.Example(seed)
 		b, big := encodeModel(sm.Tree)
